@@ -721,11 +721,18 @@ func (x *Exec) evalCall(env *Env, e *ECall) SV {
 	case "itoa":
 		x.U.Declare("str_itoa", SStr, SInt)
 		return SV{T: App("str_itoa", SStr, arg(0).T)}
+	case "appfn":
+		// appfn(f, x): the value a pure function-typed parameter f returns for x, when that value is itself a function
+		f, a := arg(0), arg(1)
+		x.U.Declare("app_Int_Int", SInt, SInt, SInt)
+		return SV{T: App("app_Int_Int", SInt, f.T, a.T)}
 	case "calls":
 		f := arg(0)
 		if c, ok := env.state().ghost["calls:"+f.T.String()]; ok {
 			return SV{T: c}
 		}
+		// not called so far on this path: register the counter so that a loop that calls it havocs it
+		env.state().ghost["calls:"+f.T.String()] = IntLit(0)
 		return SV{T: IntLit(0)}
 	case "draw":
 		f := arg(0)
